@@ -68,7 +68,7 @@ class ProgRun:
                              capture_stdout=capture_stdout)
         self.dig = Digest()
 
-    def execute(self, hook=None, on_exception=None):
+    def execute(self, hook=None, on_exception=None, rerun=False):
         prog = self.prog
         sigs = prog["signals"]
         stats = self.stats
@@ -183,7 +183,10 @@ class ProgRun:
                 self.dig.add((st["k"], obs))
 
         try:
-            self.run.run(body)
+            if rerun:
+                self.run.rerun(body)
+            else:
+                self.run.run(body)
         finally:
             self.dig.add_events(self.run.events)
             stats["decisions"] = self.run.decisions
